@@ -141,7 +141,7 @@ def run(chk):
     fut_ext = ex_x.submit(c13x.run_ext, chk, gmat, gvec, gxfer)
     # ---- G generation ------------------------------------------------------------------------------
     # (ranks, global dofs, largest local renumbering kind of module Renum)
-    plan = [(1, 3, 2), (2, 3, 5), (3, 3, 5), (4, 2, 2), (4, 3, 1), (5, 2, 2), (6, 2, 2)] if thorough else [(1, 3, 2), (2, 3, 2), (3, 3, 2), (4, 2, 2)]
+    plan = [(1, 3, 2), (2, 3, 5), (3, 3, 5), (4, 2, 2), (4, 3, 0), (5, 2, 2), (6, 2, 2)] if thorough else [(1, 3, 2), (2, 3, 2), (3, 3, 2), (4, 2, 2)]
     if only_ext:
         plan = []
     gens = [(ex_g.submit(vlib.tlc, "Gen_Synch", gen_cfg(nr, nd, rk), workers=1, timeout=1500), nr, nd) for nr, nd, rk in plan]
@@ -172,7 +172,7 @@ def run(chk):
         cases = []
         perms = [-1] if nr == 1 else ([-1, 0, 1, 2, 3, 4, 5] if nr >= 3 else [-1, 0, 1])
         # renumbered patches (a non-monotone mirror): natural arrival order and one forced order (all orders in the thorough tier for <= 3 ranks)
-        perms_rn = perms if (thorough and nr <= 3) else ([-1] if nr == 1 else ([-1, 4] if nr >= 3 else [-1, 1]))
+        perms_rn = perms if (thorough and nr <= 3) else ([-1] if (nr == 1 or nr >= 5) else ([-1, 4] if nr >= 3 else [-1, 1]))
         nonmono += sum(1 for c in base if c.get("nonmono"))
         for c in base:
             for p in (perms_rn if c.get("nonmono") else perms):
